@@ -8,12 +8,12 @@ git apply "$PATCH" || { echo "patch does not apply"; exit 2; }
 cd /verif
 for id in "$@"; do
   start=$(date +%s)
-  out=$(./check "$id" "$TIER" 2>&1 | grep -v "^proptest: Abort")
+  out=$(./check "$id" "$TIER" 2>&1 | grep -a -v "^proptest: Abort")
   rc=$?
   end=$(date +%s)
-  echo "== $id $TIER: $(echo "$out" | grep -c '^VIOLATION') violation line(s), $((end-start)) s"
-  echo "$out" | grep -A1 "^VIOLATION" | head -6
-  echo "$out" | grep -E "^INCONCLUSIVE|^C[0-9]+ " | tail -2
+  echo "== $id $TIER: $(echo "$out" | grep -a -c '^VIOLATION') violation line(s), $((end-start)) s"
+  echo "$out" | grep -a -A1 "^VIOLATION" | head -6
+  echo "$out" | grep -a -E "^INCONCLUSIVE|^C[0-9]+ " | tail -2
 done
 git -C /repo checkout -- .
 git -C /repo status --porcelain | head -3
